@@ -34,6 +34,37 @@ BOUNDS = {
                  'element_values': 'all 2^32', 'faults_per_operation': '<= 2', 'unwind': 'derived per job; unwinding assertions on', 'outside': 'larger capacities/counts, N > 3, more than two containers per step, fancy pointers'},
 }
 
+# ---------------------------------------------------------------- shared two-container / range job sets (cheap int jobs + a few instrumented ones)
+def two_basic(tier, elem='int', fmask=0, afls=((0, 1), (0, 0)), ops=None, witness=None):
+    from .jobs import two_job, OPS2_ALL
+    js = []
+    cs = [(2, 2, 2, 2), (2, 2, 2, 4), (2, 2, 4, 2), (2, 2, 4, 4), (0, 0, 2, 2), (2, 3, 2, 3), (2, 3, 2, 5), (3, 2, 3, 3), (3, 2, 3, 4), (2, 0, 2, 1), (0, 2, 1, 2)] if tier == 'quick' else \
+         [(2, 2, 2, 2), (2, 2, 2, 4), (2, 2, 4, 2), (2, 2, 4, 4), (0, 0, 0, 2), (0, 0, 2, 2), (0, 0, 2, 0), (2, 3, 2, 3), (2, 3, 2, 5), (3, 2, 3, 2), (3, 2, 3, 3), (3, 2, 3, 4), (3, 2, 5, 4), (0, 2, 0, 2), (0, 2, 1, 2), (0, 2, 0, 4), (2, 0, 2, 0), (2, 0, 2, 1), (2, 0, 2, 3), (2, 0, 4, 1), (1, 3, 1, 2)]
+    for op in (ops or OPS2_ALL):
+        for (afl, ideq) in afls:
+            for (na, nb, ca, cb) in cs:
+                if elem.startswith('Tr') and ca == na and cb == nb and ca > 0 and cb > 0 and not (op.endswith('ctor') or op.endswith('ctor_alloc')):
+                    # instrumented elements, both containers inline: element buffers alias the container objects; pin the sizes (measured: > 10 GB otherwise)
+                    for (sa, sb) in sorted(set([(1, cb), (ca, 1), (ca, cb)])):
+                        js.append(two_job(op, elem, na, nb, ca, cb, afl=afl, ideq=ideq, fmask=fmask, witness=witness, sizea=sa, sizeb=sb))
+                else:
+                    js.append(two_job(op, elem, na, nb, ca, cb, afl=afl, ideq=ideq, fmask=fmask, witness=witness))
+    return [j for j in js if j is not None]
+
+def rng_basic(tier, elem='int'):
+    from .jobs import rng_job
+    js = []
+    for op in ['ctor_range', 'assign_range', 'insert_range', 'append_range']:
+        for (n, cap) in [(2, 2), (2, 4), (0, 0)]:
+            if op == 'ctor_range' and cap != n: continue
+            for itk in (1, 3): js.append(rng_job(op, elem, n, cap, itk=itk))
+            if elem == 'int' or op == 'ctor_range': js.append(rng_job(op, elem, n, cap, itk=0, lenfix=2))
+            else:
+                for sz in sorted(set([0, max(cap - 1, 0), cap])): js.append(rng_job(op, elem, n, cap, itk=0, lenfix=2, sizefix=sz))   # instrumented type + single pass: size pinned too
+    for op in ['ctor_count', 'ctor_count_val', 'ctor_gen', 'ctor_il']:
+        for n in (0, 2): js.append(rng_job(op, elem, n, n))
+    return [j for j in js if j is not None]
+
 REG = {}
 NOT_APPLICABLE = {
     'C20': 'The subject is a Python script run by GDB\'s embedded interpreter against DWARF of a live process and a natvis XML interpreted by Visual Studio; neither engine can be encoded for a solver, '
